@@ -7,6 +7,7 @@ Specification predicates (Lean definitions `specBpseq`, `specText`, `specExt`, r
 driver) on the outputs of the real code for every clause of the property.
 """
 import json
+import os
 
 from core import history_probe, Result, call, ddmin, parallel_map
 from gen import g2
@@ -463,8 +464,92 @@ def run(ctx):
         res.sample({"family": tag, "structure": c["structure"].get("name", "synthetic:%d residues" % len(c["structure"].get("residues", []))),
                     "pairs": c["pairs"][:6], "find_gaps": c["find_gaps"],
                     "dot_bracket": o["dot_bracket"][1][:160] if o["dot_bracket"][0] == "ok" else o["dot_bracket"]})
+    external_listings(ctx, res)
     __import__("corr.fn_common", fromlist=["run_fn"]).run_fn(ctx, res, "C06")  # regenerated functions vs the real ones (tools/py2lean.py)
     return res
+
+
+_S184 = {}
+
+
+def real_external(text):
+    """the adapter's whole path for one FR3D listing of 184D: file -> parse -> mapping -> (BPSEQ, dot-bracket, extended)"""
+    import tempfile
+    from rnapolis.adapter import ExternalTool, process_external_tool_output
+    from rnapolis.parser import read_3d_structure
+    if "s" not in _S184:
+        with open(os.path.join(g2.TESTS, "184D.cif")) as f:
+            _S184["s"] = read_3d_structure(f, None)
+    with tempfile.NamedTemporaryFile("w", suffix=".txt", delete=False) as f:
+        f.write(text)
+    try:
+        st, val = call(process_external_tool_output, _S184["s"], f.name, ExternalTool.FR3D)
+    finally:
+        os.unlink(f.name)
+    if st != "ok":
+        return repr(("err", val))
+    s2d, dbs, mapping = val
+    where = {}
+    try:
+        for k, r in mapping.bpseq_index_to_residue_map.items():
+            where[k] = (r.chain, r.number)
+    except Exception:  # noqa: BLE001
+        where = {}
+    joined = sorted({tuple(sorted([where.get(e.index_, ("?", e.index_)), where.get(e.pair, ("?", e.pair))])) for e in mapping.bpseq.entries if e.pair})
+    return repr((str(s2d.bpseq), s2d.dotBracket, s2d.extendedDotBracket, dbs, joined))
+
+
+def listed_cww(text):
+    """unordered ((chain, number), (chain, number)) of the cWW lines of an FR3D listing, read independently of the adapter"""
+    out = set()
+    for line in text.splitlines():
+        f = line.split("\t")
+        if len(f) < 3 or f[1].strip() != "cWW":
+            continue
+        u, v = f[0].strip().split("|"), f[2].strip().split("|")
+        try:
+            out.add(tuple(sorted([(u[2], int(u[4])), (v[2], int(v[4]))])))
+        except (IndexError, ValueError):
+            continue
+    return out
+
+
+def external_listings(ctx, res):
+    """several listings for one structure through the adapter in one process: what is derived from a listing must not
+    contain anything of the listings read before it (forward and reverse order in fresh processes)"""
+    from corr.c14 import fr3d_listing
+    rng = ctx.rng
+    base = [l for l in open(os.path.join(g2.TESTS, "184D-fr3d.txt")).read().splitlines() if l.strip()]
+    items = ["\n".join(base) + "\n"]
+    for _ in range(ctx.pick(6, 30)):
+        k = rng.randint(1, max(1, len(base) - 1))
+        items.append("\n".join(rng.sample(base, k)) + "\n")
+    for _ in range(ctx.pick(3, 12)):
+        items.append(fr3d_listing(rng))
+    items.append("")
+    res.count("family:external-listings", len(items))
+    history_probe(ctx, res, real_external, items, "process_external_tool_output", k=len(items))
+    # specification on what is derived from each listing when the others were read before it in the same process:
+    # every pair of the BPSEQ joins two nucleotides that a cWW line of THIS listing names
+    import ast
+    import multiprocessing as mp
+    from core import _run_sequence
+    with mp.get_context("fork").Pool(1) as pool:
+        seq = pool.map(_run_sequence, [(real_external, items)])[0]
+    for text, r in zip(items, seq):
+        try:
+            val = ast.literal_eval(ast.literal_eval(r))
+        except Exception:  # noqa: BLE001
+            continue
+        if not isinstance(val, tuple) or len(val) != 5:
+            continue
+        res.count("external-listings:judged-after-earlier-listings")
+        extra = [p for p in val[4] if tuple(p) not in listed_cww(text)]
+        if extra:
+            res.fail("spec", "C06:adapter:pair-not-in-the-listing", {"family": "external-listings", "listing": text, "read_before": items[:items.index(text)][-3:]},
+                     "BPSEQ derived from this listing (after %d other listings in the same process) pairs %s, which no cWW line of the listing names"
+                     % (items.index(text), extra[:4]))
+            break
 
 
 def _eval_one(ctx, inp):
